@@ -117,6 +117,33 @@ pub struct StorageManager<Db: Database> {
     pub db: DbHandle<Db>,
 }
 
+// ---- identity of the shared parts (C12 / C10 / C15: a clone of a storage manager is a second HANDLE on the same cache, the same
+// pending transaction and the same database - Arc-shared state behind each part; `new` gives a fresh identity, `clone` the same one)
+pub uninterp spec fn part_id<T>(t: &T) -> int;
+impl Clone for Transaction {
+    #[verifier::external_body]
+    fn clone(&self) -> (r: Self) ensures part_id(&r) == part_id(self) { unimplemented!() }
+}
+impl Transaction {
+    // a NEW transaction log: shares nothing with any existing one
+    #[verifier::external_body]
+    pub fn new() -> (r: Self) { unimplemented!() }
+}
+impl Clone for TimedCache {
+    #[verifier::external_body]
+    fn clone(&self) -> (r: Self) ensures part_id(&r) == part_id(self) { unimplemented!() }
+}
+impl<Db: Database> Clone for DbHandle<Db> {
+    #[verifier::external_body]
+    fn clone(&self) -> (r: Self) ensures part_id(&r) == part_id(self) { unimplemented!() }
+}
+pub open spec fn same_manager<Db: Database>(a: &StorageManager<Db>, b: &StorageManager<Db>) -> bool {
+    &&& part_id(&a.transaction) == part_id(&b.transaction)
+    &&& part_id(&a.db) == part_id(&b.db)
+    &&& (a.cache is Some <==> b.cache is Some)
+    &&& (a.cache is Some ==> part_id(&a.cache->Some_0) == part_id(&b.cache->Some_0))
+}
+
 pub mod storage { pub use super::DbSetState; }
 
 // ---- C15: which of (database answer, pending answer) a user-state query must return so that a read inside a transaction
